@@ -49,7 +49,7 @@ theorem mapGetNode_disj (s : Sep r f) {k : Forest.MapKind} {p key : Nat} {n : HT
     simp only at hn
     have hx : n ∈ t0.kids := mapChildren_sub k t0 n (List.mem_of_find?_eq_some hn)
     intro har
-    exact s.get?_disj hp hg _ har (kids_handles_sub t0 n hx _ (handle_mem_handles n))
+    exact s.get?_disj hp hg _ har (kids_handles_sub t0 n hx _ (fc_handle_mem_handles n))
 
 theorem mapInsertionPoint_disj (s : Sep r f) {k : Forest.MapKind} {p ip : Nat}
     (hp : p ∉ handles r) (hi : f.mapInsertionPoint k p = some ip) : ip ∉ handles r := by
@@ -60,7 +60,7 @@ theorem mapInsertionPoint_disj (s : Sep r f) {k : Forest.MapKind} {p ip : Nat}
     rw [hg] at hi
     simp only at hi
     have key : ∀ x ∈ t0.kids, x.handle ∉ handles r := fun x hx har =>
-      s.get?_disj hp hg _ har (kids_handles_sub t0 x hx _ (handle_mem_handles x))
+      s.get?_disj hp hg _ har (kids_handles_sub t0 x hx _ (fc_handle_mem_handles x))
     cases hl : (Forest.mapChildren k t0).getLast? with
     | some l =>
       rw [hl] at hi
@@ -166,7 +166,7 @@ theorem cloneWithPrefixes_frame (f : Forest) (inv : f.Inv) (node : Nat) (src : H
   have hc : C.handle ∉ handles r := by
     intro h
     have := inv.below _ (handles_subset_handlesList hr _ h)
-    have := (h4 _ (handle_mem_handles C)).1
+    have := (h4 _ (fc_handle_mem_handles C)).1
     omega
   unfold Forest.cloneWithPrefixes
   rw [h1]
